@@ -486,7 +486,8 @@ Theorem Resolve_srel re_ok fuel root root' baseURI loader loader' :
   rrel resrel (Resolve re_ok fuel root baseURI loader) (Resolve re_ok fuel root' baseURI loader').
 Proof.
   intros H Hl. unfold Resolve.
-  destruct (match baseURI with [] => POk empty_uri | _ => parse_uri baseURI end) as [base| |]; cbn [rrel]; auto.
+  destruct (match baseURI with [] => POk empty_uri | _ => parse_uri baseURI end) as [base0| |]; cbn [rrel]; auto.
+  set (base := norm_base baseURI base0) in *; clearbody base.
   unfold detectDraft7. rewrite <- (srel_schema _ _ H).
   eapply rrel_bind.
   - apply resolve_doc_rel; [exact Hl| |exact H]. apply strel_mk. constructor.
